@@ -14,6 +14,17 @@ CLAIMED = {
          "evaluates the statement on the implementation and supplies replays.",
     note=TB + "lxml tokenising and event validation are outside the model; Python re.match is tabulated for the model.",
     technique="Coq proof over an executable Gallina model + model/implementation correspondence (vm_compute)", ref='5 C14'),
+ 'C01': dict(
+    text="Theorems over the pre-image model for all event types/events/hash functions/encodings: exact byte layout "
+         "(source LF type LF strings joined by 0xFFFFFFFF), the joined strings are the sorted duplicate-free set of "
+         "'property:value' strings of hashed properties only, invariance under property/object order, duplicates and non-hashed "
+         "content, and correctness of the hashed-property memo over all operation sequences (refuted without the change "
+         "callback). The byte-layout literals are re-read from /repo's source on every run (Generated/C01_gen.v) and the theorems "
+         "are re-checked against them; the real hash input is captured through the public hash_function argument for EDXMLEvent, "
+         "EventElement and ParsedEvent and compared with the model; an independent Python statement of the spec is the oracle.",
+    note=TB + "hashlib/codecs are trusted; 'the hash changes when identity changes' holds up to hash collisions and is checked "
+         "on generated populations, not proved; T1 translator harness/translate/c01.py.",
+    technique="Coq proof over Gallina model with constants regenerated from source (ast) + correspondence on captured hash inputs", ref='5 C01'),
  'C19': dict(
     text="Theorem over the root-children bookkeeping model for EVERY schedule of 'child received'/'end event processed' "
          "actions (every chunking / reader block size) and every sequence of ontology and event children of any length: "
